@@ -435,6 +435,15 @@ def execute(task, rec, world, shadow=True):
         sins = [task.shadows.get(s) for s in rec["in"]]
         if all(s is not None for s in sins):
             shs = op.shadow(task, rec, sins, outs, ins)
+    # size bound of the dense model: a result with more than 4e6 dense elements is not tracked further (no comparison, not picked as an
+    # operand by the generators, which all require a model value): keeps a seed from spending minutes in dense NumPy work
+    shs = list(shs)
+    for q, sh in enumerate(shs):
+        arr = getattr(sh, "arr", None)
+        if arr is not None and getattr(arr, "size", 0) > 4_000_000:
+            shs[q] = None
+            if world is not None:
+                world.probes["model_value_too_large_not_tracked"] += 1
     for s, v, sh in zip(rec["out"], outs, shs):
         task.slots[s] = v
         task.shadows[s] = sh
@@ -893,6 +902,9 @@ def tensordot_shadow(A, B, la, lb):
     ga, gb = A.groups(), B.groups()
     ea = [k for i in la for k in ga[i]]
     eb = [k for j in lb for k in gb[j]]
+    out_size = (A.arr.size // max(1, int(np.prod([A.arr.shape[k] for k in ea] or [1])))) * (B.arr.size // max(1, int(np.prod([B.arr.shape[k] for k in eb] or [1]))))
+    if out_size > 4_000_000:
+        return None          # beyond the size bound of the dense model (see e1.execute): not computed at all
     arr = np.tensordot(A.arr, B.arr, axes=(ea, eb))
     ra = [i for i in range(A.ndim) if i not in la]
     rb = [j for j in range(B.ndim) if j not in lb]
@@ -1777,6 +1789,11 @@ class OpEighGram(Op):
         l0, l1 = _bipartition(g, sa)
         if 2 * _total_leaves(sa, l0) > 6:
             return None
+        gr = sa.groups()
+        d0 = int(np.prod([sa.axes[k].dim for i in l0 for k in gr[i]] or [1]))
+        d1 = int(np.prod([sa.axes[k].dim for i in l1 for k in gr[i]] or [1]))
+        if d0 * d0 > 1_000_000 or d0 * d0 * d1 > 50_000_000:
+            return None          # dense work of the Gram matrix and of its model (one seed spent > 5 min here)
         return {"op": "eigh_gram", "in": [a], "args": {"axes": [l0, l1], "s": g.rng.choice([-1, 1])}}
 
     def run(self, task, rec, ins):
@@ -1979,6 +1996,14 @@ def cross_check_views(task, value, prop="C01", what=""):
     """Block access, to_numpy, to_nonsymmetric and get_legs describe one and the same array."""
     V = core.Violation
     if not isinstance(value, yastn.Tensor):
+        return
+    dense_size = 1
+    for lg in value.get_legs(native=True):
+        dense_size *= max(1, sum(lg.D))
+    if dense_size > 4_000_000:       # same size bound as the dense model
+        w = core.current_world()
+        if w is not None:
+            w.probes["views_of_very_large_tensor_not_cross_checked"] += 1
         return
     ref, nb = native_reassemble(value)
     a1 = value.to_numpy(native=True)
